@@ -348,3 +348,163 @@ func (c *Ctx) staticallyReaches(from, to *ssa.Function) bool {
 	}
 	return false
 }
+
+// ---------------------------------------------------------------------------
+// R-INCLUDE-GUARD (C05; added with fix F22): a recursion of the loader that is driven by the CONTENTS OF
+// FILES (the function opens a source and then calls, over static calls, something that reaches the function
+// again) does not end by structural descent: a file can name itself. Such a call is preceded by a record of
+// what is being loaded - a store, into a field, of a value computed from the opened file's name - and by a
+// branch whose condition depends on that name (the membership test). Without them ':- include(me).' in
+// me.pl recurses until the Go stack limit is hit: a fatal error outside every recover and every context.
+
+func ruleIncludeGuard(c *Ctx, r *Report) {
+	const rule = "R-INCLUDE-GUARD"
+	open := c.method("VM", "open")
+	if open == nil {
+		r.undecided(rule, "anchor:VM.open", "-", "locate VM.open", "not found")
+		return
+	}
+	desc := "a file-driven recursion of the loader records what is being loaded and tests it before recursing"
+	n := 0
+	for _, fn := range c.LibFuncs() {
+		if fn.Parent() != nil {
+			continue
+		}
+		var opens []*ssa.Call
+		eachInstr(fn, func(in ssa.Instruction) {
+			if call, ok := in.(*ssa.Call); ok && call.Call.StaticCallee() == open {
+				opens = append(opens, call)
+			}
+		})
+		if len(opens) == 0 {
+			continue
+		}
+		dominates := func(a, b ssa.Instruction) bool {
+			if a.Block() == b.Block() {
+				return instrIndex(a) < instrIndex(b)
+			}
+			return a.Block().Dominates(b.Block())
+		}
+		eachInstr(fn, func(in ssa.Instruction) {
+			ci, ok := in.(ssa.CallInstruction)
+			if !ok {
+				return
+			}
+			callee := ci.Common().StaticCallee()
+			if callee == nil || callee == open || !c.isLibPkg(funcPkg(callee)) || !c.staticallyReaches(callee, fn) {
+				return
+			}
+			var op *ssa.Call
+			for _, o := range opens {
+				if dominates(o, in) {
+					op = o
+				}
+			}
+			if op == nil {
+				return
+			}
+			n++
+			key := fmt.Sprintf("%s/recursion-through-%s", fname(fn), callee.Name())
+			// the file name: result #0 of open
+			var name ssa.Value
+			if refs := op.Referrers(); refs != nil {
+				for _, ref := range *refs {
+					if ex, ok := ref.(*ssa.Extract); ok && ex.Index == 0 {
+						name = ex
+					}
+				}
+			}
+			dependsOnName := func(v ssa.Value) bool {
+				hit := false
+				seen := map[ssa.Value]bool{}
+				var walk func(x ssa.Value, depth int)
+				walk = func(x ssa.Value, depth int) {
+					if x == nil || seen[x] || depth > 12 {
+						return
+					}
+					seen[x] = true
+					if x == name {
+						hit = true
+						return
+					}
+					switch y := x.(type) {
+					case *ssa.Phi:
+						for _, e := range y.Edges {
+							walk(e, depth+1)
+						}
+					case *ssa.BinOp:
+						walk(y.X, depth+1)
+						walk(y.Y, depth+1)
+					case *ssa.UnOp:
+						walk(y.X, depth+1)
+						// a load of a local cell: what was stored there
+						if cell := c.varCell(y.X); cell != nil {
+							for _, st := range c.storesTo(cell) {
+								walk(st.Val, depth+1)
+							}
+						}
+					case *ssa.Convert:
+						walk(y.X, depth+1)
+					case *ssa.ChangeType:
+						walk(y.X, depth+1)
+					case *ssa.MakeInterface:
+						walk(y.X, depth+1)
+					case *ssa.Extract:
+						walk(y.Tuple, depth+1)
+					case *ssa.Lookup:
+						walk(y.X, depth+1)
+						walk(y.Index, depth+1)
+					case *ssa.Index:
+						walk(y.X, depth+1)
+					case *ssa.IndexAddr:
+						walk(y.X, depth+1)
+					case *ssa.Slice:
+						walk(y.X, depth+1)
+						for _, e := range variadicElems(y) {
+							walk(e, depth+1)
+						}
+					case *ssa.Call:
+						for _, a := range y.Call.Args {
+							walk(a, depth+1)
+						}
+					}
+				}
+				walk(v, 0)
+				return hit
+			}
+			recorded, tested := false, false
+			if name != nil {
+				eachInstr(fn, func(x ssa.Instruction) {
+					switch y := x.(type) {
+					case *ssa.Store:
+						if _, isField := y.Addr.(*ssa.FieldAddr); isField && dominates(x, in) && dependsOnName(y.Val) {
+							recorded = true
+						}
+					case *ssa.MapUpdate:
+						if dominates(x, in) && dependsOnName(y.Key) {
+							recorded = true
+						}
+					case *ssa.If:
+						// the membership test may sit in a loop over the record: it need not dominate the call,
+						// it has to lie before it (the call is reachable from it and does not dominate it)
+						if (dominates(x, in) || (reachableFromAvoiding(x.Block(), in.Block(), nil) && !dominates(in, x))) && dependsOnName(y.Cond) {
+							tested = true
+						}
+					}
+				})
+			}
+			switch {
+			case recorded && tested:
+				r.ok(rule, key, c.at(in), desc, "the opened file's name is recorded in a field and tested by a branch before the recursive call", true)
+			case !recorded:
+				r.bad(rule, key, c.at(in), desc, "nothing computed from the opened file's name is recorded before this call re-enters "+fn.Name()+": a file that names itself recurses until the Go stack overflows (fatal)")
+			default:
+				r.bad(rule, key, c.at(in), desc, "the record of what is being loaded is never tested before this call re-enters "+fn.Name())
+			}
+		})
+	}
+	if n == 0 {
+		r.info(rule, "scan/file-driven-recursion", "-", desc, "no static recursion that passes through VM.open")
+	}
+	r.analysed(rule, fmt.Sprintf("%d file-driven static recursions", n))
+}
